@@ -181,6 +181,14 @@ class WrapTask(Task):
         I.ob(f"{P}/iteration-stops-exactly-at-the-first-non-Pending-or-unusable-response", ended == final, detail=f"{kind}: ended={ended}")
         if final:
             I.ob(f"{P}/reactor-checkpoint-is-set-when-the-iterator-ends", any(n.endswith("_reactor_checkpoint.set") for n in names))
+            # the caller may stop iterating at the final item (break / an exact number of next() calls): the generator is then
+            # never resumed, so the paused association reactor must already have been released when that item is surfaced -
+            # otherwise nothing the peer sends afterwards (an A-RELEASE-RQ, C07) is ever answered
+            cps = g.get("checkpoint_at_yield", [])
+            if ys and cps:
+                for pfx in ("C24", "C07"):
+                    I.ob(f"{pfx}/{self.fn}/the-reactor-is-released-before-the-final-item-is-surfaced", cps[-1] is True,
+                         detail=f"{kind}: reactor checkpoint set before the last yield: {cps[-1]}")
         if kind == "none":
             I.ob(f"{P}/no-response:documented-empty-result-and-timeout-handling",
                  "handle_no_response" in names and len(ys) == 1 and ys[0][0][1] is None)
@@ -237,6 +245,8 @@ class WrapTask(Task):
             if not ok:
                 break
             g["yields"].append((v, lock_depth(I.trace)))
+            g["checkpoint_at_yield"] = g.get("checkpoint_at_yield", []) + [
+                any(e.name.endswith("_reactor_checkpoint.set") for e in I.trace[g.get("trace_mark", 0):])]
         I.ob(f"{P}/no-exception-escapes-the-iterator", True)
         self.check_iteration(I, ended=True)
 
